@@ -254,6 +254,14 @@ impl core::ops::Index<core::ops::RangeTo<usize>> for ByteSeq {
     { unimplemented!() }
 }
 
+// BytesMut::from(&[u8]) / Bytes::from(&[u8]): a copy of the slice
+impl<'a> From<&'a [u8]> for ByteSeq {
+    #[verifier::external_body]
+    fn from(s: &'a [u8]) -> (r: ByteSeq)
+        ensures r@ == s@,
+    { unimplemented!() }
+}
+
 // <[T]>::to_vec: an element-wise clone (A-std)
 pub assume_specification<T: Clone> [<[T]>::to_vec] (s: &[T]) -> (r: Vec<T>)
     ensures
